@@ -46,7 +46,7 @@ class Patcher:
 
     def _handle_MoveNode(self, action, tree):
         node = tree.xpath(action.node, namespaces=self.nsmap)[0]
-        target = tree.xpath(action.target)[0]
+        target = tree.xpath(action.target, namespaces=self.nsmap)[0]
         node.getparent().remove(node)
         target.insert(action.position, node)
 
@@ -79,7 +79,7 @@ class Patcher:
         del node.attrib[action.oldname]
 
     def _handle_InsertComment(self, action, tree):
-        target = tree.xpath(action.target)[0]
+        target = tree.xpath(action.target, namespaces=self.nsmap)[0]
         target.insert(action.position, etree.Comment(action.text))
 
     def _handle_InsertNamespace(self, action, tree):
